@@ -13,7 +13,7 @@
      4  members with different fill values were not rejected with ValueError      -> "value"
     1x  result differs from the Spec outside the domain; x names the failed clause (see each judge) *)
 From Coq Require Import ZArith List Bool.
-From Verif Require Import Py PyExt Shape COO GCXS NpJoin G_join S_join Join Extract Judge SArr.
+From Verif Require Import Py PyExt Shape COO GCXS NpIndex CooIndex NpJoin G_join S_join Join Extract Judge SArr.
 Import ListNotations.
 Open Scope Z_scope.
 
@@ -123,7 +123,7 @@ Definition judge_join (c : join_case) : Z :=
           match gcxs_members members, axis with
           | Some gs, Some ax =>
             model_gcxs_ok (if op =? 0 then gcxs_concatenate_src Z Z.eqb 0 ax caxes gs
-                           else gcxs_stack_src Z Z.eqb 0 ax caxes gs) r
+                           else gcxs_stack_src Z Z.eqb 0 Z.add ax caxes gs) r
           | _, _ => true      (* all-GCXS with axis=None: not modelled (clause 11) *)
           end
         else
@@ -215,6 +215,15 @@ Definition judge_diagz (c : diagz_case) : Z :=
     end
   end.
 
+(* the real getitem path (Model/CooIndex.v) against the implementation's result *)
+Definition model_gres_ok (m : res (gres Z)) (r : sarr) : bool :=
+  match m, r with
+  | Ok (GArr c), SCoo c' => coo_eqb c c'
+  | Ok (GScalar v), SScalar z => v =? z
+  | Raise e, SExc e' => exc_eqb e e'
+  | _, _ => false
+  end.
+
 (* ------------------------------------------------------------------ take
    case: (axis or None, index list or single integer, input, result) *)
 Definition take_case := (option Z * (list Z + Z) * sarr * sarr)%type.
@@ -236,13 +245,18 @@ Definition judge_take (c : take_case) : Z :=
       match ind with
       | inl l =>
         if negb (forallb inb l) then match r with SExc _ => 0 | _ => 2 end else
-        decide true 0 (model_coo_ok (coo_take_list Z x l ax) r) (Some (np_take_list k l (darr_of x))) (c_fill x) r
+        decide true 0 (model_coo_ok (coo_take_list Z x l ax) r
+                       && model_gres_ok (coo_take_getitem_opt Z (fun _ => 1%nat) x0 (IArr l) axis) r)
+               (Some (np_take_list k l (darr_of x))) (c_fill x) r
       | inr i =>
         if negb (inb i) then match r with SExc _ => 0 | _ => 2 end else
         (* a 0-d result comes back as a scalar; compare values only *)
         match r with
-        | SScalar z => if (length (c_shape x) =? 1)%nat && (den x [wrap n i] =? z) then 0 else 2
-        | _ => decide true 0 (model_coo_ok (coo_take_int Z x i ax) r) (Some (np_take_int k i (darr_of x))) (c_fill x) r
+        | SScalar z => if (length (c_shape x) =? 1)%nat && (den x [NpJoin.wrap n i] =? z)
+                       then (if model_gres_ok (coo_take_getitem_opt Z (fun _ => 1%nat) x0 (IInt i) axis) r then 0 else 1) else 2
+        | _ => decide true 0 (model_coo_ok (coo_take_int Z x i ax) r
+                              && model_gres_ok (coo_take_getitem_opt Z (fun _ => 1%nat) x0 (IInt i) axis) r)
+                      (Some (np_take_int k i (darr_of x))) (c_fill x) r
         end
       end
     end
